@@ -262,6 +262,10 @@ func (s *sim) pickKey() []byte { return s.dom.keys[s.c.T.Intn(len(s.dom.keys))] 
 
 func (s *sim) newValue() []byte {
 	s.valCtr++
+	if s.c.T.Chance(1, 12) {
+		// the FSM stores index/marker keys with empty values: present key, empty value
+		return []byte{}
+	}
 	n := 1 + s.c.T.Intn(3)*7
 	v := make([]byte, 8, 8+n)
 	binary.BigEndian.PutUint64(v, s.valCtr)
@@ -298,7 +302,7 @@ func weightsFor(prop string) weights {
 		dbflush: 2, compact: 1, reopen: 1, crash: 0, rollback: 0, proof: 0, reset: 1, pendNested: 1}
 	switch prop {
 	case "C08":
-		w.set, w.del, w.commit, w.specRoot, w.get, w.iter, w.hist = 45, 12, 8, 3, 1, 1, 1
+		w.set, w.del, w.commit, w.specRoot, w.get, w.iter, w.hist, w.rollback = 45, 12, 8, 3, 1, 1, 1, 1
 	case "C09":
 		w.crash, w.commit, w.dbflush, w.compact, w.reopen, w.rollback = 5, 12, 3, 2, 1, 1
 		w.get, w.iter, w.hist = 2, 2, 2
